@@ -590,6 +590,8 @@ func planInlining(c *Ctx) []inlineSite {
 						kind = "stmt"
 					} else if h.results == 0 && inList(pt) {
 						kind = "stmtloop" // early returns: the body runs inside a labelled one-pass loop, `return` becomes `break`
+					} else if h.results > 0 && inList(pt) && pt.X == ast.Expr(call) {
+						kind = "dropresult" // h(a) with its results discarded: becomes `_ = h(a)`, expanded in the next round
 					}
 				case *ast.GoStmt:
 					if pt.Call == call && h.results == 0 {
@@ -695,7 +697,7 @@ func planInlining(c *Ctx) []inlineSite {
 				if kind == "" {
 					return true
 				}
-				if kind == "hoist" || kind == "ifinit" {
+				if kind == "hoist" || kind == "ifinit" || kind == "dropresult" {
 					sites = append(sites, inlineSite{file: fname, callOff: c.Fset.Position(call.Pos()).Offset, kind: kind, helper: h})
 					return true
 				}
@@ -1082,6 +1084,22 @@ func expandSite(s inlineSite, files map[string]*parsedFile) bool {
 		keepClosureVarUsed(hf, hn)
 	}
 	switch s.kind {
+	case "dropresult":
+		var target *ast.ExprStmt
+		ast.Inspect(cf.file, func(n ast.Node) bool {
+			if es, ok := n.(*ast.ExprStmt); ok && es.X == ast.Expr(call) {
+				target = es
+			}
+			return target == nil
+		})
+		if target == nil || s.helper.results == 0 {
+			return false
+		}
+		as := &ast.AssignStmt{Tok: token.ASSIGN, Rhs: []ast.Expr{call}}
+		for i := 0; i < s.helper.results; i++ {
+			as.Lhs = append(as.Lhs, ast.NewIdent("_"))
+		}
+		return replaceStmt(target, []ast.Stmt{as})
 	case "ifinit":
 		var target *ast.IfStmt
 		ast.Inspect(cf.file, func(n ast.Node) bool {
@@ -1493,7 +1511,7 @@ func buildInlinedOverlay(c *Ctx, base map[string][]byte) (map[string][]byte, int
 		if expandSite(s, files) {
 			n++
 			changed[s.file] = true
-			if !s.helper.isLit && s.kind != "hoist" && s.kind != "ifinit" {
+			if !s.helper.isLit && s.kind != "hoist" && s.kind != "ifinit" && s.kind != "dropresult" {
 				expandedHelpers[s.helper.file+"|"+s.helper.name] = true
 			}
 		}
